@@ -257,7 +257,7 @@ class ListFlow:
         out = []
         for e in lit.elts:
             if isinstance(e, ast.Starred):
-                out.append(("splice", strip_sites(self.ctx.terms.of(self.cfg, nid, e.value))))
+                out.extend(_splice_tokens(strip_sites(self.ctx.terms.of(self.cfg, nid, e.value))))
             else:
                 out.append(("elem", strip_sites(self.ctx.terms.of(self.cfg, nid, e))))
         return tuple(out)
@@ -293,7 +293,7 @@ class ListFlow:
                 if isinstance(y, (ast.List, ast.Tuple)):
                     res = self.literal_tokens(nid, y)
                 else:
-                    res = (("splice", strip_sites(T.of(self.cfg, nid, y))),)
+                    res = _splice_tokens(strip_sites(T.of(self.cfg, nid, y)))
             elif n.kind == "stmt" and meth == "insert" and len(call.args) == 2:
                 res = (("insert", strip_sites(T.of(self.cfg, nid, call.args[0])), strip_sites(T.of(self.cfg, nid, call.args[1]))),)
             elif (
@@ -307,7 +307,7 @@ class ListFlow:
                 if isinstance(a.value, (ast.List, ast.Tuple)):
                     res = self.literal_tokens(nid, a.value)
                 else:
-                    res = (("splice", strip_sites(T.of(self.cfg, nid, a.value))),)
+                    res = _splice_tokens(strip_sites(T.of(self.cfg, nid, a.value)))
             elif (
                 n.kind == "stmt"
                 and call is not None
@@ -419,6 +419,34 @@ def _creation_defs(du, nid: int, var: str) -> list:
             else:
                 out.append((dn, d))
     return out
+
+
+def _splice_tokens(t) -> tuple:
+    """What `lst.extend(<t>)` / `lst += <t>` adds: a display adds its elements; a comprehension over X adds one element per
+    item of X - the same thing as a loop of appends (the loop variable is ('iter', X), its unpacked parts ('sub', .., i))."""
+    from ..engine.terms import _bind_target, _subst_cvars
+
+    if t[0] in ("tuple", "list") and not any(x[0] == "star" for x in t[1]):
+        return tuple(("elem", x) for x in t[1])
+    if t[0] == "const" and isinstance(t[1], (tuple, list)) and all(isinstance(x, (str, bytes)) for x in t[1]):
+        return tuple(("elem", ("const", x)) for x in t[1])
+    if t[0] == "comp" and t[1] in ("ListComp", "GeneratorExp") and len(t[3]) == 1:
+        tgt, it, conds = t[3][0]
+        # `for .. in X or ()`: nothing when X is empty / None, X's items otherwise - the items of X
+        if it[0] == "bool" and it[1] == "Or" and len(it[2]) == 2 and it[2][1] in (("tuple", ()), ("list", ()), ("const", ()), ("const", "")):
+            it = it[2][0]
+        item = ("iter", it)
+        m: dict = {}
+        if tgt[0] == "cvar":
+            m[tgt[1]] = item
+        elif tgt[0] in ("tuple", "list") and all(x[0] == "cvar" for x in tgt[1]):
+            for i, x in enumerate(tgt[1]):
+                m[x[1]] = ("sub", item, ("const", i))
+        else:
+            return (("splice", t),)
+        body = (("elem", _subst_cvars(t[2], m)),)
+        return (("loop", frozenset({body, ()} if conds else {body})),)
+    return (("splice", t),)
 
 
 def list_sequences(ctx: Context, cfg, use_node, expr: ast.expr, benign=()) -> frozenset:
@@ -700,10 +728,18 @@ def _t1(ctx: Context) -> None:
         return
     # ---- skeleton: head = <sep>.join(<list>).encode(<utf-8>) [+ body]
     joins = set()
+    terminators: set = set()
     with_body = without_body = False
     for a in _alts(full):
         parts = list(a[1]) if a[0] == "add" else [a]
         head, extras = parts[0], [strip_sites(x) for x in parts[1:]]
+        # (<sep>.join(<lines>) + <terminator>).encode(): the head's final empty line written as an explicit terminator
+        if (_is_call(head) and head[1][0] == "attr" and head[1][2] == "encode" and head[1][1][0] == "add" and len(head[1][1][1]) == 2
+                and head[1][1][1][1][0] == "const" and isinstance(head[1][1][1][1][1], str)):
+            terminators.add(head[1][1][1][1][1])
+            head = ("call", ("attr", head[1][1][1][0], "encode")) + tuple(head[2:])
+        else:
+            terminators.add(None)
         if not (_is_call(head) and head[1][0] == "attr" and head[1][2] == "encode" and _is_call(head[1][1], 1)
                 and head[1][1][1][0] == "attr" and head[1][1][1][2] == "join" and not head[1][1][3]):
             ck.unknown("C09.T1", f"request bytes are not <sep>.join(<lines>).encode(): {show(a, 200)}", ctx.loc(f, node))
@@ -763,6 +799,16 @@ def _t1(ctx: Context) -> None:
         return
     jn, jc = cands[0]
     seqs = list_sequences(ctx, cfg, jn, jc.args[0])
+    if terminators != {None}:
+        if len(terminators) != 1:
+            ck.unknown("C09.T1", f"the request head is terminated in different ways on different paths: {sorted(map(repr, terminators))}", ctx.loc(f, node))
+            return
+        term = next(iter(terminators))
+        ck.check("C09.T1", term == sep[1] * 2, "request(): the explicit terminator after the joined lines is the separator twice (the two empty lines)",
+                 f"{fk}:terminator", f"request(): the joined lines are followed by {term!r}; the head ends with CRLF CRLF", ctx.loc(f, node))
+        if term != sep[1] * 2:
+            return
+        seqs = frozenset(tuple(sq) + (("elem", ("const", "")), ("elem", ("const", ""))) for sq in seqs)
     cls = lambda t: _classify_line(t, p_self, p_method, p_target, p_headers)  # noqa: E731
     n_ok = 0
     for seq in sorted(seqs, key=_show_seq):
@@ -790,16 +836,21 @@ def _t1(ctx: Context) -> None:
         if with_body and without_body:
             ck.unknown("C09.T1", "cannot attribute the body/no-body alternatives to definitions", ctx.loc(f, node))
         return
-    appenders = [dn for dn, d, _v in origins if d.kind == "aug"]
-    heads = [dn for dn, d, _v in origins if d.kind != "aug"]
+    # the definitions that put the body behind the head (`x += body`, or `x = head + body`), wherever they stand
+    def _with_body(dn, d) -> bool:
+        if d.kind == "aug":
+            return True
+        return d.kind == "assign" and d.value is not None and contains(T.of(cfg, cfg.nodes[dn], d.value), lambda s_: s_ == ("param", p_body))
+
+    appenders = [dn for dn, d, _v in origins if _with_body(dn, d)]
     present, absent = _truth_edges(ctx, cfg, ("param", p_body))
     for b in appenders:
         ctx.must_pass("C09.T1", cfg, b, "body test [present outcome]", present,
                       desc="request(): the body is appended only on the body-present outcome")
-    for a in heads:
-        ctx.must_pass("C09.T1", cfg, node, "body test [absent outcome]", absent, start=a, avoid_nodes=appenders,
-                      desc="request(): the head is sent alone only on the body-absent outcome")
-    _require_min(ck, "C09.T1", "buffer shapes (with / without headers)", len(seqs), 2)
+    # every way to the send that does not append the body took the body-absent outcome
+    ctx.must_pass("C09.T1", cfg, node, "body test [absent outcome]", absent, avoid_nodes=appenders,
+                  desc="request(): the head is sent alone only on the body-absent outcome")
+    _require_min(ck, "C09.T1", "buffer shapes (with / without headers)", len(seqs), 1)
 
 
 # ---------------------------------------------------------------------- plumbing shared by K1 / K3 / K4
@@ -1071,13 +1122,48 @@ def _k2(ctx: Context) -> None:
                 defs = [(dn, d) for dn, d in du.reaching(node.id, value.id) if d.kind == "assign" and not d.path]
                 if defs and len(defs) == len(t[1]):
                     sites = [(f, cfg, cfg.nodes[dn], strip_sites(T.of(cfg, cfg.nodes[dn], d.value)), None) for dn, d in defs]
+            elif t[0] == "phi" and isinstance(value, ast.Call) and isinstance(value.func, ast.Attribute) and value.func.attr == "format" and isinstance(value.func.value, ast.Name):
+                # `template.format(h)` with the template chosen by an if/else before: the form is decided where the template
+                # is chosen - each choice is a form site, the i-th alternative of the formatted value belongs to the i-th choice
+                du = T.du(cfg)
+                defs = [(dn, d) for dn, d in du.reaching(node.id, value.func.value.id) if d.kind == "assign" and not d.path]
+                if defs and len(defs) == len(t[1]) and len({strip_sites(T.of(cfg, cfg.nodes[dn], d.value)) for dn, d in defs}) == len(defs):
+                    sites = [(f, cfg, cfg.nodes[dn], alt, None) for (dn, d), alt in zip(defs, t[1])]
+            if t[0] == "phi" and len(sites) == 1 and sites[0][3] is t:
+                # the choice lies deeper: follow the value through its single definitions to the local that has one
+                # definition per alternative (`literal = f"[{h}]" if ":" in h else h; header = f"Host: {literal}"`)
+                du = T.du(cfg)
+                seen_n: set = set()
+                work = [(node.id, x.id) for x in ast.walk(value) if isinstance(x, ast.Name)]
+                found = None
+                while work and found is None and len(seen_n) < 40:
+                    at, nm = work.pop(0)
+                    if (at, nm) in seen_n or nm not in du.local_names:
+                        continue
+                    seen_n.add((at, nm))
+                    defs = [(dn, d) for dn, d in du.reaching(at, nm) if d.kind == "assign" and not d.path]
+                    if len(defs) == len(t[1]) and len(du.reaching(at, nm)) == len(defs):
+                        found = defs
+                    elif len(defs) == 1 and len(du.reaching(at, nm)) == 1:
+                        work += [(defs[0][0], x.id) for x in ast.walk(defs[0][1].value) if isinstance(x, ast.Name)]
+                if found is not None:
+                    sites = [(f, cfg, cfg.nodes[dn], alt, None) for (dn, d), alt in zip(found, t[1])]
             if t[0] == "call" and t[1][0] == "glob" and t[1][1] in ctx.prog.functions and not t[3]:
                 g = ctx.prog.functions[t[1][1]]
                 if not g.is_async and not g.is_generator and not isinstance(g.node, ast.Lambda) and len(t[2]) <= len(g.pos_params):
                     gcfg = ctx.cfg(g.qualname)
                     argmap = {("param", g.pos_params[i]): a for i, a in enumerate(t[2])}
                     sites = [(g, gcfg, rn, strip_sites(T.of(gcfg, rn, rn.exprs[0])), argmap) for rn in gcfg.nodes if rn.kind == "return" and rn.exprs and not rn.copy_of]
+            # a conditional expression chooses the form inside one statement: each arm is a form site, gated by the
+            # expression's own test instead of a branch of the graph
+            sites2 = []
             for sf, scfg, snode, st_, argmap in sites:
+                if st_[0] == "ifexp":
+                    sites2.append((sf, scfg, snode, st_[2], argmap, (st_[1], True)))
+                    sites2.append((sf, scfg, snode, st_[3], argmap, (st_[1], False)))
+                else:
+                    sites2.append((sf, scfg, snode, st_, argmap, None))
+            for sf, scfg, snode, st_, argmap, egate in sites2:
                 sfk = ctx.fkey(sf)
                 sloc = ctx.loc(sf, snode)
                 where = "_connect_once" if argmap is None else f"{sf.name} (called from _connect_once)"
@@ -1114,6 +1200,19 @@ def _k2(ctx: Context) -> None:
                     present, _absent = _truth_edges(ctx, cfg, hc)
                     ctx.must_pass("C09.K2", cfg, node, "peer address test [not None outcome]", present,
                                   desc=f"_connect_once ({form}): the address is known when the Host header is built")
+                if egate is not None:
+                    ct, arm = egate
+                    ct = strip_sites(ct)
+                    is_colon = ct[0] == "cmp" and len(ct[1]) == 1 and ct[1][0] in ("In", "NotIn") and ct[2] == (("const", ":"), h)
+                    if not is_colon:
+                        ck.unknown("C09.K2", f"{where}: the form is chosen by `{show(ct, 80)}`, not by a test of ':' in the address: not decided", sloc)
+                        continue
+                    has_colon = arm == (ct[1][0] == "In")
+                    ck.check("C09.K2", has_colon == (form == "bracketed"),
+                             f"{where}: the {form} form is chosen exactly when ':' in h is {'true' if form == 'bracketed' else 'false'}",
+                             f"{sfk}:host-form-choice:{form}",
+                             f"{where}: the {form} Host form is chosen when ':' in h is {'true' if has_colon else 'false'}", sloc)
+                    continue
                 colon, nocolon = [], []
                 for n in scfg.nodes:
                     if n.kind != "test":
@@ -1676,6 +1775,13 @@ _CF = "aiohomekit/controller/ip/connection.py"
 _PF = "aiohomekit/controller/ip/pairing.py"
 _HEADERS = '                ("Content-Length", len(body)),\n                ("Content-Type", content_type.value),\n'
 VARIANTS = [
+    {
+        "name": "Host form chosen by a conditional template, arms the wrong way round",
+        "file": _CF,
+        "old": '        if ":" in connected_host:\n            self.host_header = f"Host: [{connected_host}]"\n        else:\n            self.host_header = f"Host: {connected_host}"\n',
+        "new": '        self.host_header = ("Host: {}" if ":" in connected_host else "Host: [{}]").format(connected_host)\n',
+        "expect": "C09.K2",
+    },
     # ---- Appendix A
     {
         "name": "the two entity headers swapped (put)",
